@@ -54,6 +54,7 @@ func VerifH_ClientNextRPC() {
 		vrt.Quiesce()
 	}
 	vrt.Assert(done2, "RPC 2 returns once RPC 1 has finished")
+	vrt.Assert(!hx.IsClosedCh(conn.Closed()), "soft cancels with nothing else in flight leave the connection open")
 	if !hx.IsClosedCh(conn.Closed()) {
 		vrt.Assert(hx.IsClosedCh(conn.Unblocked()), "an open connection is unblocked")
 		// probe: next stream id is 2 if RPC 2 never got a stream, else 3
